@@ -153,6 +153,7 @@ func C10(e *Env) {
 // findCalls returns the call instructions of fn (no closures) whose name matches.
 func findCalls(fn *ssa.Function, name string, anon bool) []ssa.CallInstruction {
 	var out []ssa.CallInstruction
+	name = load.ResolveQualified(name)
 	for _, c := range callsIn(fn, anon) {
 		if callName(c.Common()) == name {
 			out = append(out, c)
@@ -204,14 +205,75 @@ func extractOf(c ssa.CallInstruction, idx int) ssa.Value {
 
 // successEdge reports whether ins is only reachable when errv == nil was established
 // by a branch on errv.
+// errAliases: values that are the same error as errv — errv itself and the result of calling a function
+// literal of fn all of whose returns return (an alias of) errv.
+func errAliases(fn *ssa.Function, errv ssa.Value) map[ssa.Value]bool {
+	al := map[ssa.Value]bool{errv: true}
+	for round := 0; round < 3; round++ {
+		allInstrs(fn, func(_ *ssa.Function, ins ssa.Instruction) {
+			c, ok := ins.(*ssa.Call)
+			if !ok || c.Call.IsInvoke() {
+				return
+			}
+			var lit *ssa.Function
+			switch f := c.Call.Value.(type) {
+			case *ssa.MakeClosure:
+				lit, _ = f.Fn.(*ssa.Function)
+			case *ssa.Function:
+				if f.Parent() != nil {
+					lit = f
+				}
+			}
+			if lit == nil || lit.Signature.Results().Len() != 1 {
+				return
+			}
+			all, n := true, 0
+			for _, b := range lit.Blocks {
+				if b == lit.Recover {
+					continue // the synthetic block of a function with defers; reached only after a recovered panic
+				}
+				if ret, ok := b.Instrs[len(b.Instrs)-1].(*ssa.Return); ok {
+					n++
+					rv := ret.Results[0]
+					// a function with defers spills its result: `*t0 = v; rundefers; return *t0`
+					if ld, ok := rv.(*ssa.UnOp); ok && ld.Op == token.MUL {
+						if cell, ok := ld.X.(*ssa.Alloc); ok {
+							stores, good := 0, 0
+							for _, ref := range *cell.Referrers() {
+								if st, ok := ref.(*ssa.Store); ok && st.Addr == cell {
+									stores++
+									if al[st.Val] {
+										good++
+									}
+								}
+							}
+							if stores > 0 && stores == good {
+								continue
+							}
+						}
+					}
+					if !al[rv] {
+						all = false
+					}
+				}
+			}
+			if all && n > 0 {
+				al[c] = true
+			}
+		})
+	}
+	return al
+}
+
 func successEdge(fn *ssa.Function, errv ssa.Value, ins ssa.Instruction) bool {
+	aliases := errAliases(rootFn(fn), errv)
 	for _, b := range fn.Blocks {
 		iff, ok := b.Instrs[len(b.Instrs)-1].(*ssa.If)
 		if !ok {
 			continue
 		}
 		v, nonNilOnTrue, ok := nilTest(iff.Cond)
-		if !ok || v != errv {
+		if !ok || !aliases[v] {
 			continue
 		}
 		// success = the edge where errv is nil
@@ -268,7 +330,7 @@ func c10Write(e *Env, gen *ssa.Function) {
 		for _, ins := range blk.Instrs {
 			if fa, ok := ins.(*ssa.FieldAddr); ok {
 				if st, ok := fa.X.Type().Underlying().(*types.Pointer); ok {
-					if s, ok := st.Elem().Underlying().(*types.Struct); ok && s.Field(fa.Field).Name() == "outputFile" {
+					if _, ok := st.Elem().Underlying().(*types.Struct); ok && fieldName(fa) == "outputFile" {
 						for _, ref := range *fa.Referrers() {
 							if u, ok := ref.(*ssa.UnOp); ok && u.Op == token.MUL {
 								fieldLoads = append(fieldLoads, u)
@@ -320,7 +382,7 @@ func c10Write(e *Env, gen *ssa.Function) {
 			for _, ins := range blk.Instrs {
 				if st, ok := ins.(*ssa.Store); ok {
 					if fa, ok := st.Addr.(*ssa.FieldAddr); ok {
-						if s, ok := fa.X.Type().Underlying().(*types.Pointer).Elem().Underlying().(*types.Struct); ok && s.Field(fa.Field).Name() == "outputFile" {
+						if _, ok := fa.X.Type().Underlying().(*types.Pointer).Elem().Underlying().(*types.Struct); ok && fieldName(fa) == "outputFile" {
 							if prm, ok := st.Val.(*ssa.Parameter); ok && prm.Name() == "outputFile" {
 								okStore = true
 							}
@@ -727,9 +789,86 @@ func c10RunE(e *Env) {
 	br := findCalls(fn, e.P.ModPath+"/internal/cmd.buildRunner", false)
 	r.Check(len(br) == 1 && runs[0].Common().Args[0] == br[0].Value(), "R10.5", key+"#runner", "RunE runs the runner returned by buildRunner")
 
-	// R10.6 list
-	coll := findCalls(fn, load.RuntimeMod+"/grouperror.Collection", false)
-	if len(coll) != 1 || !ts.has(coll[0].Common().Args[0]) {
+	// R10.6 list — printed by RunE itself or by a helper of its package that receives the runner's error
+	lfn, lts := fn, ts
+	var helperCall ssa.CallInstruction
+	if len(findCalls(fn, load.RuntimeMod+"/grouperror.Collection", false)) == 0 {
+		for _, c := range callsIn(fn, false) {
+			g := c.Common().StaticCallee()
+			if g == nil || g.Pkg != fn.Pkg && rootFn(fn).Pkg != g.Pkg || len(g.Blocks) == 0 {
+				continue
+			}
+			if len(findCalls(g, load.RuntimeMod+"/grouperror.Collection", false)) != 1 {
+				continue
+			}
+			var seeds []ssa.Value
+			for i, a := range c.Common().Args {
+				if ts.has(a) && i < len(g.Params) {
+					seeds = append(seeds, g.Params[i])
+				}
+			}
+			if len(seeds) > 0 {
+				lfn, lts, helperCall = g, taintFrom(g, seeds...), c
+			}
+		}
+	}
+	c10List(e, key, lfn, lts)
+
+	// R10.7: writer discipline
+	var outv ssa.Value
+	var printers []ssa.CallInstruction
+	printers = append(printers, callsIn(fn, false)...)
+	if helperCall != nil {
+		printers = append(printers, callsIn(lfn, false)...)
+	}
+	for _, c := range printers {
+		n := callName(c.Common())
+		if strings.HasPrefix(n, "github.com/fatih/color.(Color).Fprint") {
+			w := c.Common().Args[1]
+			if prm, isP := w.(*ssa.Parameter); isP && helperCall != nil && prm.Parent() == lfn {
+				for i, gp := range lfn.Params {
+					if gp == prm && i < len(helperCall.Common().Args) {
+						w = helperCall.Common().Args[i]
+					}
+				}
+			}
+			if outv == nil {
+				outv = w
+			} else if outv != w {
+				r.Violate("R10.7", key+"#single-writer", "the error list is printed to different writers", nil, e.P.Pos(c.Pos()))
+			}
+		}
+		if strings.HasPrefix(n, "github.com/fatih/color.(Color).Print") || strings.HasPrefix(n, "github.com/fatih/color.(Color).Sprint") && false {
+			r.Violate("R10.7", key+"#stdout-print", "color.Print* writes to stdout regardless of --quiet", nil, e.P.Pos(c.Pos()))
+		}
+	}
+	if outv == nil {
+		r.Undecide("R10.7", key+"#writer", "no Fprint of the error list found")
+		return
+	}
+	r.Check(quietWriter(fn, outv), "R10.7", key+"#quiet-writer", "the writer is io.Discard on every path on which the quiet flag is set")
+	// payload.writer is the same value
+	okPayload := false
+	for _, blk := range fn.Blocks {
+		for _, ins := range blk.Instrs {
+			if st, ok := ins.(*ssa.Store); ok {
+				if fa, ok := st.Addr.(*ssa.FieldAddr); ok {
+					if _, ok := fa.X.Type().Underlying().(*types.Pointer).Elem().Underlying().(*types.Struct); ok && fieldName(fa) == "writer" {
+						okPayload = st.Val == outv
+					}
+				}
+			}
+		}
+	}
+	r.Check(okPayload, "R10.7", key+"#payload-writer", "runnerPayload.writer is the same quiet-switched writer")
+}
+
+// c10List: the numbered list is grouperror.Collection of the runner's error, every element is printed,
+// numbered index+1, in a loop without further conditions. lfn is RunE or the helper that prints.
+func c10List(e *Env, key string, lfn *ssa.Function, lts *taintSet) {
+	r := e.R
+	coll := findCalls(lfn, load.RuntimeMod+"/grouperror.Collection", false)
+	if len(coll) != 1 || !lts.has(coll[0].Common().Args[0]) {
 		r.Violate("R10.6", key+"#list", "the numbered list is not grouperror.Collection of the runner's error", nil)
 	} else {
 		cv := coll[0].Value()
@@ -737,7 +876,7 @@ func c10RunE(e *Env) {
 		// loop over cv: blocks between; no conditional other than the range condition; every element printed
 		var elemLoads []ssa.Value
 		var loopBlocks []*ssa.BasicBlock
-		for _, blk := range fn.Blocks {
+		for _, blk := range lfn.Blocks {
 			for _, ins := range blk.Instrs {
 				if ia, ok := ins.(*ssa.IndexAddr); ok && ia.X == cv {
 					for _, ref := range *ia.Referrers() {
@@ -754,7 +893,7 @@ func c10RunE(e *Env) {
 			r.Violate("R10.6", key+"#list-loop", "no loop over the collected errors", nil)
 		} else {
 			body := elemLoads[0].(*ssa.UnOp).Block()
-			for _, blk := range fn.Blocks {
+			for _, blk := range lfn.Blocks {
 				if reach(body, true)[blk] && reach(blk, false)[body] {
 					loopBlocks = append(loopBlocks, blk)
 				}
@@ -767,9 +906,9 @@ func c10RunE(e *Env) {
 			}
 			r.Check(cond == 1, "R10.6", key+"#list-loop-prints-every-error", "the list loop has no conditional besides the range condition (no error is skipped or merged)", e.P.Pos(elemLoads[0].Pos()))
 			// the element is printed, and the number printed is index+1
-			et := taintFrom(fn, elemLoads...)
+			et := taintFrom(lfn, elemLoads...)
 			printed, numbered := false, false
-			for _, c := range callsIn(fn, false) {
+			for _, c := range callsIn(lfn, false) {
 				n := callName(c.Common())
 				if !strings.HasPrefix(n, "github.com/fatih/color.(Color).Fprint") {
 					continue
@@ -797,41 +936,6 @@ func c10RunE(e *Env) {
 		}
 	}
 
-	// R10.7: writer discipline
-	var outv ssa.Value
-	for _, c := range callsIn(fn, false) {
-		n := callName(c.Common())
-		if strings.HasPrefix(n, "github.com/fatih/color.(Color).Fprint") {
-			w := c.Common().Args[1]
-			if outv == nil {
-				outv = w
-			} else if outv != w {
-				r.Violate("R10.7", key+"#single-writer", "the error list is printed to different writers", nil, e.P.Pos(c.Pos()))
-			}
-		}
-		if strings.HasPrefix(n, "github.com/fatih/color.(Color).Print") || strings.HasPrefix(n, "github.com/fatih/color.(Color).Sprint") && false {
-			r.Violate("R10.7", key+"#stdout-print", "color.Print* writes to stdout regardless of --quiet", nil, e.P.Pos(c.Pos()))
-		}
-	}
-	if outv == nil {
-		r.Undecide("R10.7", key+"#writer", "no Fprint of the error list found")
-		return
-	}
-	r.Check(quietWriter(fn, outv), "R10.7", key+"#quiet-writer", "the writer is io.Discard on every path on which the quiet flag is set")
-	// payload.writer is the same value
-	okPayload := false
-	for _, blk := range fn.Blocks {
-		for _, ins := range blk.Instrs {
-			if st, ok := ins.(*ssa.Store); ok {
-				if fa, ok := st.Addr.(*ssa.FieldAddr); ok {
-					if s, ok := fa.X.Type().Underlying().(*types.Pointer).Elem().Underlying().(*types.Struct); ok && s.Field(fa.Field).Name() == "writer" {
-						okPayload = st.Val == outv
-					}
-				}
-			}
-		}
-	}
-	r.Check(okPayload, "R10.7", key+"#payload-writer", "runnerPayload.writer is the same quiet-switched writer")
 }
 
 func variadicHasIndexPlusOne(sl ssa.Value) bool {
